@@ -863,6 +863,8 @@ class Executor:
         res["segments"] = [(t, self.relpath(s)) for t, s in out if t in ("o", "r")]
         res["reports"] = reports
         res["who"] = MON.who_emitted
+        res["pops"] = MON.pops
+        res["ntokens"] = MON.ntokens
         res["max_ratio"] = round(CLOCK.max_ratio, 3)
         res["opens"] = sum(1 for e in self.log if e[0] == "open")
         self.ev("cli", [self.relpath(a) for a in op["argv"]], res["end"], res.get("exit"),
